@@ -83,3 +83,16 @@ def table(facts, f, enum_suffix, is_target, rule, exact_type=None):
         for v in s_:
             seen[v].add(_name(facts, n))
     return seen, len(hits)
+
+
+def node_kind_domain(facts):
+    """XmlNode (outer) and NodeType (an inner value computed from it by node_type()); type names are printed relative to the
+    crate they are used in"""
+    def lf(ty):
+        t = ty.replace("&mut ", "").replace("&", "").strip()
+        if t in ("xml_dom::XmlNode", "XmlNode", "dom::XmlNode"):
+            return "outer"
+        if t in ("xml_dom::NodeType", "NodeType", "dom::NodeType"):
+            return "inner"
+        return None
+    return enumflow.Domain(facts, "xml_dom::XmlNode", "xml_dom::NodeType", None, level_fn=lf)
